@@ -131,7 +131,7 @@ def part_a(sh: Shard, seed, n):
         spa.config_number = r.randrange(256)
         spa.config_version, spa.log_version = r.randrange(1, 256), r.randrange(1, 256)
         spa.pack_type = spa.new_pack_class.type
-        name = r.choice(["Heating", "Pump 1, 2 and blower running", "all off", "x", "a (b) c", "EconomyMode-Active_2", "before Config version 3 upgrade", "after Log version 7 change", "intouch version EN 1 v2.3 installed", "Spa pack inXM 5 v1.2 as shipped", "Got spa configuration Type 1 - CFG 2/LOG 3", "".join(r.choice("abcdefghijklmnopqrstuvwxyzABC 0123456789-_.,()") for _ in range(r.randrange(1, 30)))])
+        name = r.choice(["state\x0bA", "a\x0cb", "x\x1cy\x1dz\x1e", "p\x85q", "u\u2028v", "w\u2029z"] if i % 9 == 4 else ["Heating", "Pump 1, 2 and blower running", "all off", "x", "a (b) c", "EconomyMode-Active_2", "before Config version 3 upgrade", "after Log version 7 change", "intouch version EN 1 v2.3 installed", "Spa pack inXM 5 v1.2 as shipped", "Got spa configuration Type 1 - CFG 2/LOG 3", "".join(r.choice("abcdefghijklmnopqrstuvwxyzABC 0123456789-_.,()") for _ in range(r.randrange(1, 30)))])
 
         class F:
             pass
@@ -380,7 +380,14 @@ def part_b(sh: Shard, seed, n):
         sim.structure.set_status_block(block)
         sim._STATUS_BLOCK_SEGMENT_SIZE = segsize
         req = GeckoStatusBlockProtocolHandler.full_request(1, parms=("10.0.0.2", 1234, b"SPA01:02:03:04:05:06", b"IOSx"))
-        wit = {"part": "b", "block_style": style, "segment_size": segsize, "case": f"{seed}:{i}"}
+        overlong = 0
+        if i % 6 == 5 and segsize >= 8:  # (at most 256 segments: the index is one byte)
+            # a request reaching past the end of the block: the simulator closes the chain with empty
+            # segments (the last one, with next == 0, carries no data) - still the transferred block
+            overlong = r.choice([1025, 1063, 1100, 1024 + segsize, 1024 + 2 * segsize + 1])
+            req = GeckoStatusBlockProtocolHandler.request(1, 0, overlong, parms=("10.0.0.2", 1234, b"SPA01:02:03:04:05:06", b"IOSx"))
+            sh.count("traffic_logs_of_an_overlong_request")
+        wit = {"part": "b", "block_style": style, "segment_size": segsize, "requested_length": overlong or 1024, "case": f"{seed}:{i}"}
         sh.evaluations += 1
         try:
             with contextlib.redirect_stdout(io.StringIO()):
